@@ -147,6 +147,16 @@ check("C17", "exploration",
       "deterministic simulation with fault injection: seeded graph/constraint/tag-list/fault search; every resolver write and healthy transition judged against an independent recomputation over what the reconcile read",
       "§7 C17")
 
+check("C09", "exploration",
+      "Seeded deterministic simulation in W-claim of the real XR reconciler with the real APIFilteredSecretPublisher and the real claim reconciler with the real APIConnectionPropagator. "
+      "Scripted pipeline steps emit connection details (keys user/pass/extra, later steps overriding earlier ones); the XRD key filter is drawn (none, one, two keys); Compositions with and without writeConnectionSecretsToNamespace; claims with and without writeConnectionSecretToRef; "
+      "secrets pre-existing at the claim's secret name (absent, uncontrolled, controlled by a stranger, other secret type); a stranger taking the name an XR will publish under; API faults, lost replies, conflicts and crashes. "
+      "Judged at every secret write a reconcile issues: an XR reconcile only touches the secret its XR names, and none if it names none; keys it adds or changes are allowed by the XRD filter and carry exactly the value the last function response of that very reconcile produced for this XR; "
+      "a claim reconcile only touches its claim's secret, only after reading its bound XR's secret and only if that XR controls it; every key it changes equals the source and the result contains all source keys; a write with identical content is a violation; stranger-controlled secrets stay byte-identical after every step.",
+      TB + " Patch-and-transform connection extraction (from composed resources' secrets) is not driven: values come from scripted functions. Keys already present in an adopted pre-existing secret are attributed to whoever put them there.",
+      "deterministic simulation with fault injection: seeded schedule/fault/crash search; every secret write judged against the recorded function output and the read log",
+      "§7 C09")
+
 def main():
     props = [json.loads(l)["id"] for l in open(os.path.join(V, "properties.jsonl"))]
     na = []
